@@ -346,7 +346,7 @@ func TestC20(t *testing.T) {
 		}
 	}
 	// paths: exhaustive up to length 3 over {a, "", b.c, 0, 1, 7}
-	elems := []interface{}{"a", "", "b.c", 0, 1, 7}
+	elems := []interface{}{"a", "", "b.c", "c\x01\x7f\U000E0001\"", 0, 7}
 	var enum func(prefix []interface{}, depth int)
 	enum = func(prefix []interface{}, depth int) {
 		c := c20Case{Kind: "path", Path: append([]interface{}{}, prefix...)}
@@ -381,7 +381,7 @@ func TestC20(t *testing.T) {
 		var p []interface{}
 		for i := 0; i < n; i++ {
 			if rapid.Bool().Draw(rt, "isname") {
-				p = append(p, rapid.SampledFrom([]string{"a", "variable", "", "x.y", "[0]", "é", "0"}).Draw(rt, "name"))
+				p = append(p, rapid.SampledFrom([]string{"a", "variable", "", "x.y", "[0]", "é", "0", "a\x01", "\x7f", "\U000E0001", "q\"uote", "back\\slash", "\u2028", "\U0010FFFF", "\x00", "tab\t", "new\nline"}).Draw(rt, "name"))
 			} else {
 				p = append(p, rapid.IntRange(0, 1<<31-1).Draw(rt, "index"))
 			}
